@@ -60,10 +60,29 @@ def edit(rng, lines):
     return out
 
 
+def shifted_deletion_case(rng, k):
+    """A net deletion of D lines at the top, then a pure deletion just before a block, then an
+    addition inside the block: the change list is not sorted (old-file line number of the deletion)."""
+    D = rng.randint(3, 12)
+    top = ["let top_%d_%d = 0;" % (k, i) for i in range(D + 2)]
+    gap = ["let gap_%d_%d = 0;" % (k, i) for i in range(rng.randint(1, 4))]
+    block = ['// <block name="s%d" v="1">' % k] + ["let in_%d_%d = 0;" % (k, i) for i in range(rng.randint(2, 5))] + ["// </block>"]
+    tail = ["let tail_%d_%d = 0;" % (k, i) for i in range(4)]
+    old = top + gap + block + tail
+    new = top[D:] + gap[:-1] + block[:2] + ["let added_%d = 1;" % k] + block[2:] + tail
+    return old, new
+
+
 def run(chk, n=40):
     rng = chk.rng
     tdir = vlib.subdir("difflong-traces")
     cases = []
+    for i in range(max(6, n // 4)):
+        old, new = shifted_deletion_case(rng, i)
+        name = "s%d.js" % i
+        text = "\n".join(new) + "\n"
+        cases.append({"id": "shift%d" % i, "files": {name: text}, "args": ["list"], "terminal": False,
+                      "diff": dt.git_diff("\n".join(old) + "\n", text, rng.choice([0, 0, 1, 3]), name)})
     for i in range(n):
         files, diff = {}, ""
         for f in range(rng.randint(1, 3)):
